@@ -670,6 +670,11 @@ func c22Request(c *Case, s *c22Server, line, verb, path string, kv map[string]st
 		c.Out(line, "err:bad-op")
 		return
 	}
+	// VGI-Session is only sent on DELETE (the session-delete route is the property's subject; what a
+	// session token does to an RPC call is C29's)
+	if verb != "DELETE" && (sess == "garbage" || sess == "fresh") {
+		sess = "absent"
+	}
 	switch sess {
 	case "absent":
 	case "garbage":
@@ -696,7 +701,7 @@ func c22Request(c *Case, s *c22Server, line, verb, path string, kv map[string]st
 	respBody := rec.Body.String()
 	status := rec.Code
 
-	describe := under && len(rel) == 1 && rel[0] == "__describe__" && verb == "POST" && status == 200 &&
+	describe := strings.HasSuffix(strings.TrimSuffix(path, "/"), "/__describe__") && status == 200 &&
 		rec.Header().Get("Content-Type") == c22Arrow && rec.Header().Get("X-VGI-RPC-Error") == "" && len(respBody) > 0
 
 	denied := (status == 401 && rec.Header().Get(vgirpc.HeaderAuthReason) != "") ||
@@ -919,7 +924,7 @@ func c22RandReq(r *Rng, k c22Cfg) string {
 		if r.Chance(12) {
 			verb = Pick(r, c22Verbs)
 		}
-		if r.Chance(4) && path != "/" {
+		if r.Chance(4) && !strings.HasSuffix(path, "/") {
 			path += "/"
 		}
 	default: // probing: a path from the route alphabet
@@ -932,7 +937,7 @@ func c22RandReq(r *Rng, k c22Cfg) string {
 		for i := 0; i < n; i++ {
 			path += "/" + Pick(r, c22Segs)
 		}
-		if path == "" || r.Chance(8) {
+		if path == "" || (r.Chance(8) && !strings.HasSuffix(path, "/")) {
 			path += "/"
 		}
 	}
